@@ -685,18 +685,31 @@ sock_shutdown(nni_sock *sock, bool device)
 	// Mark us closing, so no more EPs or changes can occur.
 	sock->s_closing = true;
 
-	while ((l = nni_list_first(&sock->s_listeners)) != NULL) {
-		nni_listener_hold(l);
+	// An endpoint that refuses the hold is being closed by another
+	// thread, which takes it off the list itself; it keeps the socket
+	// referenced until it has been reaped.
+	l = nni_list_first(&sock->s_listeners);
+	while (l != NULL) {
+		if (nni_listener_hold(l) != 0) {
+			l = nni_list_next(&sock->s_listeners, l);
+			continue;
+		}
 		nni_mtx_unlock(&sock->s_mx);
 		nni_listener_close(l);
 		nni_mtx_lock(&sock->s_mx);
+		l = nni_list_first(&sock->s_listeners);
 	}
 
-	while ((d = nni_list_first(&sock->s_dialers)) != NULL) {
-		nni_dialer_hold(d);
+	d = nni_list_first(&sock->s_dialers);
+	while (d != NULL) {
+		if (nni_dialer_hold(d) != 0) {
+			d = nni_list_next(&sock->s_dialers, d);
+			continue;
+		}
 		nni_mtx_unlock(&sock->s_mx);
 		nni_dialer_close(d);
 		nni_mtx_lock(&sock->s_mx);
+		d = nni_list_first(&sock->s_dialers);
 	}
 
 	// For each pipe, arrange for it to teardown hard.  We would
